@@ -505,6 +505,10 @@ def execute(case, mon):
     logits = LY.relayout(logits, case.get("layout") or LY.pick(T, N, V, case["width"]))
     lens = case["lens"]
     lens_t = None if lens is None else torch.tensor(lens, dtype=torch.long)
+    if lens_t is not None and max(lens, default=0) < 128 and (sum(lens) + case["width"]) % 3 == 0:
+        # the lengths in another integer type ("a tensor of shape (N,)")
+        lens_t = lens_t.to(torch.int32 if sum(lens) % 2 else torch.uint8)
+        mon.cls("lens_dtype_" + str(lens_t.dtype).replace("torch.", ""))
     lens_n = [T] * N if lens is None else list(lens)
     lmc = case["lm"]
     conds = lmc["conds"] if lmc else [0] * N
